@@ -75,6 +75,8 @@ def quoted (bs : List UInt8) : List UInt8 := 34 :: bs ++ [34]
   jsonu <kind> <prev16> <doc> <lit>    → json.Unmarshal of doc into a destination holding prev; lit = the literal
                                          encoding/json hands to UnmarshalJSON (hex,hex…) | invalid | nocall | realloc
   ucql <col> <kind> <prev> <data|null> → ok|err <destination afterwards>   (gocql.Unmarshal, uuid/timeuuid column)
+  ucqlt <col> <sec> <nsec> <data|null> → ok|err <sec.nsec afterwards>     (gocql.Unmarshal into a *time.Time)
+  mcql <kind> <content>                → ok <16 bytes> | err               (gocql.Marshal of a uuid column value)
   useq <prev16> <step>...              → ok:<dst>|err:<dst> per step, all on ONE destination
   rtdirty <prev16> <u16>               → u (every printer → every decoder, destination holding prev)
   tsround / timeround / bound / randchk / parsechk: property oracles, see below -/
@@ -162,6 +164,16 @@ def step (_ : Unit) (ws : List String) : Unit × String :=
         let r := Uuid.unmarshalCQL (d.getD []) dst
         (if r.1 then "ok " else "err ") ++ showDst r.2
       | _, _ => "bad-op"
+  | ["ucqlt", col, ps, pn, d] => match intArg ps, natArg pn, optBytes d with   -- C19_cql_time_destination
+      | some ps, some pn, some d =>
+        let r := Uuid.unmarshalCQLTime (col == "timeuuid") (d.getD []) (ps, pn)
+        (if r.1 then "ok " else "err ") ++ s!"{r.2.1}.{r.2.2}"
+      | _, _, _ => "bad-op"
+  | ["mcql", kind, c] => match (if kind == "bytes" then (optBytes c).map Uuid.Dst.bytes else parseDst kind c) with
+      | some v => match Uuid.marshalCQL v with                                    -- C19_cql_marshal_unmarshal
+        | some b => "ok " ++ toHex b
+        | none => "err"
+      | none => "bad-op"
   | "useq" :: p :: steps => match parseHex p, parseSteps steps with
       | some p, some ss => if p.length = 16 then
           " ".intercalate ((Uuid.runSeq p ss).map (fun r => (if r.1 then "ok:" else "err:") ++ toHex r.2))
